@@ -38,4 +38,7 @@ MUTANTS = [
     {"id": "c06-not-merged-ignores-head-reach", "expect": "fire", "edits": [(G, "            and iid not in all_commits_in_this_branch\n            and iid not in reachable_from_head\n", "            and iid not in all_commits_in_this_branch\n")]},
     {"id": "c06-not-merged-direct-parents-only", "expect": "fire", "edits": [(G, "                reachable_from_head.add(rc.iid)\n                rc_stack.extend(rc.parents)\n", "                reachable_from_head.add(rc.iid)\n")]},
     {"id": "c06-n-reach-set-renamed", "expect": "silent", "edits": [(G, "reachable_from_head", "head_closure", 4)]},
+    # R06f: candidates of 'not merged'
+    {"id": "c06-candidates-only-listed", "expect": "fire", "edits": [(G, '        if prev_branch is not None:\n            # the head of the previous branch may belong to one of the even\n            # earlier branches. Commits reachable from it are not included\n            # into builds of the previous branch, but still are candidates\n            visited = set()\n            rc_stack = list(prev_branch.rheads)\n            while rc_stack:\n                rc = rc_stack.pop()\n                if rc.iid not in visited:\n                    visited.add(rc.iid)\n                    all_commits_prev_branch.setdefault(rc.iid, rc)\n                    rc_stack.extend(rc.parents)\n', "")], "note": "the state before fix 99d09f0"},
+    {"id": "c06-candidates-closure-from-this-head", "expect": "fire", "edits": [(G, "            rc_stack = list(prev_branch.rheads)\n", "            rc_stack = list(result_accumdata.rc_parents)\n")]},
 ]
